@@ -5,6 +5,7 @@
 use itertools::Itertools;
 
 use crate::{
+    constant::WORD_SIZE_BITS,
     tc::{lift::Lift, state::TypeCheckerState},
     vm::value::{PackedSpan, RuntimeBoxedVal, RSV, RSVD},
 };
@@ -94,8 +95,13 @@ impl Lift for PackedEncoding {
             let mut spans_are_valid = true;
             let mut last_position = 0;
             for PackedSpan { offset, size, .. } in &spans {
+                // A span that reaches beyond the word cannot be part of a packed word either
+                let Some(end) = offset.checked_add(*size).filter(|end| *end <= WORD_SIZE_BITS) else {
+                    spans_are_valid = false;
+                    break;
+                };
                 spans_are_valid = spans_are_valid && last_position <= *offset;
-                last_position = offset + size;
+                last_position = end;
             }
 
             // In order to prevent issues with inferring types for unused portions of a
